@@ -860,10 +860,10 @@ fn names_have_special(n: &ManifestObjectNames) -> bool {
 fn classify_compile_error(names: &ManifestObjectNames, e: &str) -> String {
     if e.contains("UnexpectedEof") && e.contains("full_index: 0, line_idx: 0, line_char_index: 0 }, end: Position { full_index: 0,") {
         "recompile-error:empty-manifest".to_string()
-    } else if names_have_special(names) {
-        "recompile-error:name-with-quote-or-backslash".to_string()
     } else if e.contains("MaxDepthExceeded") {
         "recompile-error:depth".to_string()
+    } else if names_have_special(names) && (e.contains("LexerError") || e.contains("ParserError") || e.contains("NameResolverError")) {
+        "recompile-error:name-with-quote-or-backslash".to_string()
     } else if e.contains("LexerError") {
         "recompile-error:lexer".to_string()
     } else if e.contains("ParserError") {
